@@ -155,6 +155,28 @@ CHECKS = {
                   "implementation",
         engine="store",
     ),
+    "C19": dict(
+        category="model_checking",
+        text="(A) Profile file as a store: deviation-bounded closure search "
+             "(<= 2/3 keys off default) of set/get/reopen/get_fit_params "
+             "against a dict; (B) legacy key=value rendering of every "
+             "reached state incl. 'approach'/'retract'; (C) setup_profile() "
+             "under a scripted input(): every script with <= 2/3 answered "
+             "prompts, each answer from a finite menu, from three start "
+             "profiles (default, non-default, legacy file); (D) every "
+             "distinct fit-relevant profile produced goes through fit_data "
+             "on a fresh curve, and fit_perform's statistics.tsv is "
+             "compared row by row on a two-file folder.",
+        design_ref="DESIGN.md §2 C19",
+        note="Menus hold well-formed, in-bounds answers; an answer the "
+             "prompt rejects (asks again) is not an accepted answer; the "
+             "compiled sneddon_spher plug-in is not fitted.",
+        technique="closure search of the profile store + exhaustive "
+                  "deviation-bounded enumeration of answer scripts against "
+                  "the real interactive setup, acceptance by the real batch "
+                  "fit",
+        engine="store",
+    ),
 }
 
 NA_REASON = "check not built yet in this session (under construction; see DESIGN.md §9 work order)"
@@ -193,7 +215,7 @@ def build():
              "kind_free_text": "complete enumeration of a finite input domain on the implementation"},
             {"name": "hist", "path": "mc/hist.py", "serves_properties": ["C03", "C06", "C09", "C10", "C12", "C16"],
              "kind_free_text": "explicit-state breadth-first search over operation histories on real objects (replay from scratch, canonical state hash, per-state and per-transition oracles, merge-soundness and determinism self-checks)"},
-            {"name": "store", "path": "mc/props/c03_store.py", "serves_properties": ["C03", "C18"],
+            {"name": "store", "path": "mc/props/c03_store.py", "serves_properties": ["C03", "C18", "C19"],
              "kind_free_text": "closure (fixpoint) search of small dictionary-like stores against a reference model"},
         ],
         "checks": checks,
